@@ -653,6 +653,12 @@ class BoxCorr(Corr):
             cloud = box_cloud(rng, [(bx, kf), (bx, kf + F(dk))], npts if i % 9 else 10, ncols)
             if i % 31 == 7:
                 cloud = []
+            if i % 50 == 4:          # a large box holding more than 255 rows (get_inside_pointcloud_num beyond 8 bits)
+                bx["size"] = [4.0, 8.0, 3.0]
+                ncols = max(ncols, 3)
+                cloud = dense_rows(rng, bx, kf, ncols)
+                ring2 = box_footprint(bx, kf + F(dk))[0]
+                cloud = [r for r in cloud if far_from_ring((F(r[0]), F(r[1])), ring2)]
             out.append({"box": bx, "scale": sc, "dk": dk, "ncols": ncols, "cloud": cloud, "dtype": rng.choice(["float64", "float32"])})
         return out
 
@@ -745,8 +751,9 @@ class BoxCorr(Corr):
     def distribution(self, cases, obs):
         d = {"points": 0, "inside": 0, "rotation": {"axis_aligned": 0, "q1": 0, "q2": 0, "q3": 0, "q4": 0, "tilted": 0},
              "scale": {"fixed": 0, "distance_dependent": 0, "argument_left_at_its_default": 0}, "ncols": {}, "monotonicity_strict_growth": 0,
-             "cloud_dtype": {"float64": 0, "float32": 0}}
+             "cloud_dtype": {"float64": 0, "float32": 0}, "boxes_holding_more_than_255_rows": 0}
         for c, o in zip(cases, obs):
+            d["boxes_holding_more_than_255_rows"] += o.get("num", 0) > 255
             d["scale"]["argument_left_at_its_default"] += bool(c["scale"].get("omit"))
             d["cloud_dtype"][c.get("dtype", "float64")] += 1
             d["points"] += len(c["cloud"])
@@ -769,12 +776,33 @@ class BoxCorr(Corr):
 # ------------------------------------------------------------------------------------------------
 # 3. SensingFrameResult.evaluate_frame
 # ------------------------------------------------------------------------------------------------
+def elevated_pos(rng):
+    """a lattice position HIGH above / below the ego vehicle (|z| >= 8 m, |x|, |y| <= 6 m) with a rational 3-D distance: the distance the
+    scale law speaks about is the distance to the object, which here is far from its bird's-eye-view distance"""
+    for _ in range(200):
+        p = gen_pos(rng, 14, 14)
+        x, y, z = sorted(abs(v) for v in p)
+        if z >= 8.0 and y <= 6.0:
+            sx, sy = rng.choice([-1, 1]), rng.choice([-1, 1])
+            return [sx * x, sy * y, rng.choice([-1, 1]) * z] if rng.random() < 0.5 else [sx * y, sy * x, rng.choice([-1, 1]) * z]
+    return [3.0, 4.0, 12.0]
+
+
+def bev_box(g):
+    """the same box as the ego vehicle would scale it if it measured the distance in the ground plane only (generator use: rows between the
+    two candidate boxes make the difference visible)"""
+    return {"pos": [g["pos"][0], g["pos"][1], 0.0]}
+
+
 def gen_scene(rng, n_obj, cfg):
     gts = []
     for _ in range(n_obj):
         g = gen_box(rng)
         if max(abs(g["pos"][0]), abs(g["pos"][1])) < 50:      # (gen_box places every eighth object beyond 100 m: kept)
             g["pos"] = gen_pos(rng, 12, 1)
+            if rng.random() < 0.12:
+                g["pos"] = elevated_pos(rng)
+                g["elevated"] = True
         g["vis"] = rng.choice(VIS + ["none", "full"])
         gts.append(g)
     if n_obj >= 2 and rng.random() < 0.3:      # overlapping boxes
@@ -797,6 +825,10 @@ def scene_cloud(rng, gts, cfg, n, ncols, seen=None):
     for g, k in bk:
         rows += box_cloud(rng, [(g, k)], max(2, n // (2 * len(bk))), ncols,
                           zs=z_values(g["pos"][2] - g["size"][2] / 2, g["pos"][2] + g["size"][2] / 2))
+        if g.get("elevated") and n:
+            # rows around the box as scaled at the 3-D distance AND as it would be scaled at the ground-plane distance
+            rows += box_cloud(rng, [(g, k), (g, ideal_scale(bev_box(g), cfg["s0"], cfg["s100"]))], 60, ncols,
+                              zs=z_values(g["pos"][2] - g["size"][2] / 2, g["pos"][2] + g["size"][2] / 2)[:7])
     rows += gen_cloud(rng, n // 2, [box_footprint(g, k)[0] for g, k in bk], (-16, 16), (-16, 16), zs, ncols)
     # keep only rows that respect the margin of EVERY box and are distinct
     rings = [box_footprint(g, k)[0] for g, k in bk]
@@ -809,6 +841,24 @@ def scene_cloud(rng, gts, cfg, n, ncols, seen=None):
         out.append(r)
     rng.shuffle(out)
     return out
+
+
+def dense_rows(rng, g, k, ncols, want=270, others=60):
+    """> 255 distinct lattice rows INSIDE the box scaled by k (counts beyond what an 8-bit counter holds) + a few rows outside"""
+    zlo, zhi = g["pos"][2] - g["size"][2] / 2, g["pos"][2] + g["size"][2] / 2
+    ins, outs, seen = [], [], set()
+    for _ in range(8):
+        for r in box_cloud(rng, [(g, k)], 900, ncols, zs=[zlo, zhi, (zlo + zhi) / 2, zlo + 0.125, zhi - 0.125, zlo + 0.5, zhi - 0.5, zlo - 0.125, zhi + 0.125]):
+            key = tuple(r[:3]) if ncols >= 3 else tuple(r[:2])
+            if key in seen:
+                continue
+            seen.add(key)
+            (ins if box_inside(g, k, r) else outs).append(r)
+        if len(ins) >= want:
+            break
+    rows = ins[: want + rng.randint(0, 40)] + outs[:others]
+    rng.shuffle(rows)
+    return rows
 
 
 def res_obs(r, gts_objs, cloud):
@@ -877,6 +927,8 @@ class FrameCorr(Corr):
             cfg = {"s0": rng.choice([1.0, 1.0, 1.25, 0.75]), "s100": rng.choice([1.0, 1.5, 2.0, 3.0]), "min_points": 1}
             n_obj = rng.choice([0, 1, 2, 3, 4, 6]) if i % 10 else 0
             gts = gen_scene(rng, n_obj, cfg)
+            if any(g.get("elevated") for g in gts) and rng.random() < 0.7:
+                cfg["s100"] = 5.0          # a steep scale law: the 3-D and the ground-plane distance give clearly different boxes
             ncols = rng.choice([3, 3, 4, 2])
             seen = set()
             cloud = scene_cloud(rng, gts, cfg, npts, ncols, seen)
@@ -897,6 +949,25 @@ class FrameCorr(Corr):
                     pc = [row for row in pc if box_inside(gts[0], ideal_scale(gts[0], cfg["s0"], cfg["s100"]), row)]
                 pcs.append({"ncols": pc_cols, "rows": pc})
             out.append({"cfg": cfg, "gts": gts, "ncols": ncols, "cloud": cloud, "pcs": pcs, "dtype": rng.choice(["float64", "float32"])})
+        # dense scenes: one large object collects MORE THAN 255 rows; thresholds at 256 / 257 / the count / the count +- 1 / count - 200
+        # (a count kept in 8 bits wraps to count - 256 and falls below it)
+        for j in range(2 if tier == "quick" else 8):
+            cfg = {"s0": 1.0, "s100": rng.choice([1.0, 1.5]), "min_points": 1}
+            g = gen_box(rng, "yaw")
+            g["pos"], g["size"], g["vis"] = gen_pos(rng, 12, 1), [4.0, 8.0, 3.0], rng.choice(["full", "most", None])
+            gts = [g]
+            if j % 2:
+                g2 = gen_box(rng, "yaw")
+                g2["pos"], g2["vis"] = [-g["pos"][0] + 20.0, g["pos"][1], 0.0], "partial"
+                gts.insert(0, g2)       # the dense object is not the first one
+            ncols = rng.choice([3, 4])
+            cloud = dense_rows(rng, g, ideal_scale(g, cfg["s0"], cfg["s100"]), ncols)
+            rings = [box_footprint(gg, kk)[0] for gg, kk in scene_rings(gts, cfg)]
+            cloud = [r for r in cloud if all(far_from_ring((F(r[0]), F(r[1])), ring) for ring in rings)]
+            cnt = sum(1 for row in cloud if box_inside(g, ideal_scale(g, cfg["s0"], cfg["s100"]), row))
+            cfg["min_points"] = [256, cnt - 200, 257, cnt, cnt + 1, cnt - 1][j % 6]
+            out.append({"cfg": cfg, "gts": gts, "ncols": ncols, "cloud": cloud, "pcs": [{"ncols": ncols, "rows": cloud[:40]}], "dtype": rng.choice(["float64", "float32"]),
+                        "dense": True})
         return out
 
     def run_impl(self, case):
@@ -959,8 +1030,17 @@ class FrameCorr(Corr):
 
     def distribution(self, cases, obs):
         d = {"objects": 0, "success": 0, "fail": 0, "warning": 0, "threshold_hit_with_equality": 0, "nondet_reported": 0, "nondet_clouds": 0,
-             "nondet_dropped_empty": 0, "points": 0, "cloud_dtype": {"float64": 0, "float32": 0}, "evaluated_twice": 0}
+             "nondet_dropped_empty": 0, "points": 0, "cloud_dtype": {"float64": 0, "float32": 0}, "evaluated_twice": 0,
+             "objects_holding_more_than_255_rows": 0, "objects_high_above_or_below_the_ego(3d_distance>>ground_distance)": 0,
+             "rows_between_the_3d_distance_box_and_the_ground_distance_box": 0}
         for c, o in zip(cases, obs):
+            for g in c["gts"]:
+                if g.get("elevated"):
+                    d["objects_high_above_or_below_the_ego(3d_distance>>ground_distance)"] += 1
+                    k3, k2 = ideal_scale(g, c["cfg"]["s0"], c["cfg"]["s100"]), ideal_scale(bev_box(g), c["cfg"]["s0"], c["cfg"]["s100"])
+                    d["rows_between_the_3d_distance_box_and_the_ground_distance_box"] += sum(
+                        1 for row in c["cloud"] if box_inside(g, k3, row) != box_inside(g, k2, row))
+            d["objects_holding_more_than_255_rows"] += sum(1 for k in ("success", "fail", "warning") for r in o.get(k, []) if r["num"] > 255)
             d["cloud_dtype"][c.get("dtype", "float64")] += 1
             d["evaluated_twice"] += "again_same" in o
             d["objects"] += len(c["gts"])
@@ -1026,7 +1106,17 @@ class ManagerCorr(Corr):
             elif mode == "different":
                 while fc is None or (fc["s0"], fc["s100"]) == (cfg["s0"], cfg["s100"]):
                     fc = {"s0": rng.choice([1.0, 1.5, 2.0, 0.75]), "s100": rng.choice([1.0, 2.0, 3.0, 0.5]), "min_points": rng.choice([1, 2, 3, 5])}
+                if i % 6 == 2:
+                    # every other such case: the frame configuration's boxes are LARGER than the manager's at every distance, so that the
+                    # second cut (evaluate_frame, frame configuration) removes rows the manager's cut left in the areas
+                    fc["s0"], fc["s100"] = cfg["s0"] + rng.choice([0.25, 0.5]), cfg["s100"] + rng.choice([0.5, 1.0])
             gts = gen_scene(rng, rng.choice([1, 2, 3]) if in_map else rng.choice([0, 1, 2, 3, 5]), cfg)
+            if not in_map and any(g.get("elevated") for g in gts) and rng.random() < 0.7:
+                cfg["s100"] = 5.0          # a steep scale law: the 3-D and the ground-plane distance give clearly different boxes
+                if mode == "same":
+                    fc = dict(cfg)
+                elif mode == "different" and i % 6 == 2:
+                    fc["s100"] = cfg["s100"] + 1.0
             tf = None
             if in_map:
                 # ground truths given in the MAP frame together with the BASE_LINK -> MAP transform of the frame: the scale depends on the
@@ -1235,6 +1325,7 @@ class ManagerCorr(Corr):
             d["frame_config"][c.get("mode", "same")] += 1
             d["cloud_dtype"][c.get("dtype", "float64")] += 1
             d["area_vertices_as"][c.get("inner", "tuples")] += 1
+            d["objects_high_above_or_below_the_ego"] = d.get("objects_high_above_or_below_the_ego", 0) + sum(1 for g in c["gts"] if g.get("elevated"))
             if c.get("map"):
                 d["map_frame_objects"] += len(c["gts"])
                 d["map_objects_whose_scale_depends_on_the_transform"] += sum(
@@ -1286,6 +1377,13 @@ class C12(Prop):
             "representations: float64 and float32 clouds (dtype and column count must come back unchanged), area vertices as tuples or lists, "
             "scale argument left at its default when k = 1, clouds that are not 2-D (flat and 3-D arrays) in the malformed stream, every frame "
             "evaluated a second time with a fresh SensingFrameResult over the same objects; "
+            "every other 'different' manager case gives the FRAME configuration larger boxes than the manager's at every distance, so that the "
+            "second cut of add_frame_result removes rows the manager's cut left in the areas; "
+            "numeric edges: every eighth object of the frame / manager scenes hangs HIGH above or below the ego vehicle (|z| 8-14 m within 6 m in the "
+            "ground plane, rational 3-D distance; 70 % of such scenes use a steep scale law box_scale_100m = 5) with extra rows between the box "
+            "scaled at the 3-D distance and the one scaled at the ground-plane distance, so that the distance the scale law uses is pinned to "
+            "the distance to the object; dense frame scenes in which one large object (listed first or second) holds MORE THAN 255 rows, with "
+            "min_points_threshold at 256 / 257 / the count / count +- 1 / count - 200 (counts and masks kept in 8 bits wrap); "
             "non-trivial = both inside and outside rows (crop, box), at least two result classes (frame), rows in areas and objects (manager)")
     assumptions = [
         "finite coordinates (NaN/inf outside the model); numpy arrays are rectangular",
